@@ -538,7 +538,8 @@ func validateName(allowReserved bool, typeName, name string, line, col int) (err
 			ErrValidation, typeName, line, col))
 	} else {
 		for _, b := range name {
-			if charMap[b] != tokenChar {
+			// (a character outside of the table is not a name character)
+			if len(charMap) <= int(b) || charMap[b] != tokenChar {
 				errs = append(errs, fmt.Errorf("%w, %s is not a valid %s name at %d:%d",
 					ErrValidation, name, typeName, line, col))
 				break
